@@ -97,6 +97,42 @@ func startDial(cf base.ClientFactory, pw string, wire *memwire.Conn) chan dialRe
 	return ch
 }
 
+var errCompletedUnauthenticated = errors.New("the client's Dial returned success although the server never authenticated it (and therefore stays silent)")
+
+// awaitHello lets the reference server read the client's first message and
+// returns the authenticated hello.  It never blocks for ever: if the server
+// has not authenticated the client once everything is quiescent, it waits for
+// Dial to end (at the latest by the client's own 60 s virtual deadline),
+// closes the wire and returns an error; the dial result stays in ch.
+func awaitHello(srv *ss.Server, cw, sw *memwire.Conn, ch chan dialResult) (*ss.Hello, error) {
+	type helloRes struct {
+		h   *ss.Hello
+		err error
+	}
+	hch := make(chan helloRes, 1)
+	go func() {
+		h, err := srv.ReadHello(sw)
+		hch <- helloRes{h, err}
+	}()
+	synctest.Wait()
+	select {
+	case hr := <-hch:
+		return hr.h, hr.err
+	default:
+	}
+	res := <-ch
+	ch <- res
+	cw.Close()
+	hr := <-hch
+	if hr.err == nil {
+		return hr.h, nil // (cannot happen: the server was quiescent without a hello)
+	}
+	if !res.failed() {
+		return nil, errCompletedUnauthenticated
+	}
+	return nil, hr.err
+}
+
 var addrCtr int
 
 // pair returns a fresh wire whose server address is unique within the process
@@ -413,7 +449,7 @@ func runSplit(c *mon.Case, r *mon.Run, sc *srvCtx, cf base.ClientFactory, dir st
 	wit := map[string]any{"padding": sp.pad, "response_len": ss.MinUDH + sp.pad, "cuts": sp.cutsString(), "extras": sp.extras, "mechanism": sp.mech}
 	cw, sw := pair(nil)
 	ch := startDial(cf, sc.pw, cw)
-	hello, err := sc.srv.ReadHello(sw)
+	hello, err := awaitHello(sc.srv, cw, sw, ch)
 	if err != nil {
 		res := <-ch
 		c.Violation("client-hello-not-authenticated/udh", fmt.Sprintf("the reference server could not authenticate the client's first message: %v (dial: err=%v panic=%q); %s", err, res.err, res.panic, sp), wit)
@@ -564,9 +600,12 @@ func trim(st string) string {
 func connect(c *mon.Case, sc *srvCtx, cf base.ClientFactory, pw string, addr *net.TCPAddr, pad int, seed uint64) (*link, dialResult, error) {
 	cw, sw := pair(addr)
 	ch := startDial(cf, pw, cw)
-	hello, err := sc.srv.ReadHello(sw)
+	hello, err := awaitHello(sc.srv, cw, sw, ch)
 	if err != nil {
 		res := <-ch
+		if res.conn != nil {
+			res.conn.Close()
+		}
 		cw.Close()
 		sw.Close()
 		return nil, res, err
@@ -647,7 +686,7 @@ func runStream(c *mon.Case, r *mon.Run, dir string, chunk int, scenario int, see
 		cw, sw := pair(addr)
 		s2c, c2s := sw.Out(), cw.Out()
 		ch := startDial(cf, sc.pw, cw)
-		hello, err := sc.srv.ReadHello(sw)
+		hello, err := awaitHello(sc.srv, cw, sw, ch)
 		if err != nil {
 			res := <-ch
 			c.Violation("client-hello-not-authenticated/stream", fmt.Sprintf("round %d: %v (dial err=%v panic=%q)", round, err, res.err, res.panic), wit)
@@ -923,7 +962,7 @@ func runWrongPassword(c *mon.Case, r *mon.Run, sc *srvCtx, cf base.ClientFactory
 		// a peer that does not check the client's proof and answers with a
 		// response under ITS secret: the client must still not complete
 		peer := ss.NewServer(other, sc.rnd)
-		hello, err := peer.ReadHello(sw)
+		hello, err := awaitHello(peer, cw, sw, ch)
 		if err != nil {
 			<-ch
 			c.Violation("client-hello-not-authenticated/wrong-secret", err.Error(), wit)
@@ -934,7 +973,7 @@ func runWrongPassword(c *mon.Case, r *mon.Run, sc *srvCtx, cf base.ClientFactory
 		resp, _ := sc.srv.Respond(hello, rng.IntN(ss.MaxUDHPad+1), nil)
 		sw.Write(resp)
 	} else {
-		_, err := sc.srv.ReadHello(sw) // returns when the client has given up
+		_, err := awaitHello(sc.srv, cw, sw, ch) // returns when the client has given up
 		if err == nil {
 			c.Violation("harness/wrong-secret-authenticated", mode, wit)
 		}
@@ -982,7 +1021,7 @@ func runTamperedResponse(c *mon.Case, r *mon.Run, sc *srvCtx, cf base.ClientFact
 	wit := map[string]any{"field": tm.field, "bit": tm.bit, "padding": pad}
 	cw, sw := pair(nil)
 	ch := startDial(cf, sc.pw, cw)
-	hello, err := sc.srv.ReadHello(sw)
+	hello, err := awaitHello(sc.srv, cw, sw, ch)
 	if err != nil {
 		<-ch
 		c.Violation("client-hello-not-authenticated/tampered-response", err.Error(), wit)
